@@ -9,4 +9,5 @@ import Comet.DistanceF32
 import Comet.Hybrid
 import Comet.BM25
 import Comet.BM25F
+import Comet.HybridSearch
 import Comet.Driver.Loop
